@@ -72,9 +72,16 @@ class RegScenario:
         self.env.__enter__()
         self.loop.drift_us = self.drift_us
         self.loop.read_offset_us = self.phase_us
-        self.face = HFace(self.trace, local=self.local)
+        self.face = HFace(self.trace, local=bool(self.local))
         self.face.on_send = self._on_send
         self.app = self.fe.make_app(self.face)
+        self.twin = None
+        if self.local == 'twin':
+            # a second application object of the same kind, created later, with a connection of its own that nobody answers on: the
+            # commands of the first application are none of its business
+            tface = HFace()
+            tapp = self.fe.make_app(tface)
+            self.twin = (tapp, tface, self.loop.create_task(tapp.main_loop()))
         if self.fe_name == 'legacy':
             async def dv(name, sig):
                 # the data validator rejects answers of kind 'invalid'
@@ -210,6 +217,9 @@ class RegScenario:
                'cmds': [{'us': c['us'], 'fired': c['fired'], 'kind': c.get('kind'), 'late': c.get('late', False),
                          'wire': c['wire'].hex()} for c in self.cmds]}
         obs['failures'] = loop.task_failures(ignore=set(self.tasks.values()))
+        if self.twin is not None:
+            obs['twin_sent'] = len(self.twin[1].sent)
+            self.twin[0].shutdown()
         self.app.shutdown()
         loop.settle()
         obs['failures'] += [f for f in loop.task_failures(ignore=set(self.tasks.values())) if f not in obs['failures']]
@@ -407,6 +417,9 @@ def judge(fe_name, calls, answers, run, local=True, drift=0):
         if bool(res[1]) != ok or not isinstance(res[1], bool):
             viol.append((f'C17|{fe_name}|{verb}-result|answer={kind}|returned={res[1]!r}',
                          f'{verb} {PREFIXES[pi]} returned {res[1]!r} on forwarder answer {kind}'))
+    if obs.get('twin_sent'):
+        viol.append((f'C17|{fe_name}|command-on-another-applications-connection', f"{obs['twin_sent']} packet(s) left through the connection of a second "
+                                                                                f'application object that issued no command'))
     for f in obs['failures']:
         viol.append((f"C17|{fe_name}|task-error|{f['exception']}@{f['where']}", str(f)))
     for h in obs['handler']:
@@ -451,6 +464,10 @@ def extra_cases():
         for drift in (300, 500, 1000):
             for mix in ([('register', 0), ('register', 1)], [('register', 0), ('unregister', 1)], [('register', 0), ('register', 1), ('unregister', 0)]):
                 out.append((fe, mix, ['200'] * len(mix), True, drift))
+        # next to a second application object of the same kind (created after this one)
+        for mix in ([('register', 0)], [('unregister', 0)], [('register', 0), ('unregister', 1)]):
+            for ans in (['200'] * len(mix), ['403-nobody'] * len(mix)):
+                out.append((fe, mix, ans, 'twin', 0))
     return out
 
 
